@@ -1,3 +1,4 @@
+import CharsetProof.Lemmas.Utf8
 import CharsetProof.Props.C17
 open Charset
 #print axioms C17_test_only
@@ -5,3 +6,10 @@ open Charset
 #print axioms C17_chunk_mode_single_byte
 #print axioms C17_table_strict_events
 #print axioms C17_ignore_replace_total
+#print axioms C17_utf8_roundtrip
+#print axioms C17_utf8_window
+#print axioms C17_helper_window
+#print axioms utf8_char_roundtrip
+#print axioms utf8_proper_prefix_incomplete
+#print axioms chunkRetry_front
+#print axioms chunkRetry_back
